@@ -5,8 +5,10 @@ from `lib/src/protocol/mux/h2.rs` (`handle_data_frame`: the running
 `data_received` counter, the "received > declared" check on every frame, the
 "received != declared" check at END_STREAM; `handle_headers` for a trailer
 HEADERS frame: the same equality check). This code lives inside `ConnectionH2`
-and cannot be called in-process, so this part of the model is **not tied** by
-the differential harness (only read from the source); it connects the framing
+and cannot be called in-process; this part of the model is tied end-to-end
+instead: the `cl-matrix` cases of `harness/src/bin/e2ebody.rs` (real worker, TLS
+HTTP/2 client, strict HTTP/1.1 backend) compare reset / done / forwarded of
+`rrun` (driver verb `recon`) with what is observed. It connects the framing
 chosen by `handle_header` to the `BodyFits` hypothesis of `C03_unambiguous`.
 -/
 namespace Sozu.Headers
